@@ -40,6 +40,9 @@ type Program struct {
 	anyType    types.Type
 	errorIface types.Type
 	lazyT      *fakeType
+	methCache  sync.Map
+	lookCache  sync.Map
+	reCache    sync.Map
 }
 
 type intrinsic func(ex *exec, fr *frame, fn *ssa.Function, args []value) value
@@ -51,6 +54,8 @@ type intrinsicFn struct {
 }
 
 type fnMeta struct {
+	slots     map[ssa.Value]int // env slot of every SSA value defined in the function
+	nslots    int
 	intr      intrinsic
 	interpret bool
 	skipInit  bool
@@ -112,7 +117,8 @@ type frame struct {
 	caller           *frame
 	fn               *ssa.Function
 	block, prevBlock *ssa.BasicBlock
-	env              map[ssa.Value]value
+	env              []value
+	slots            map[ssa.Value]int
 	locals           []value
 	defers           *deferred
 	result           value
@@ -134,8 +140,8 @@ func (fr *frame) get(key ssa.Value) value {
 	case *ssa.Global:
 		return fr.ex.global(key)
 	}
-	if r, ok := fr.env[key]; ok {
-		return r
+	if i, ok := fr.slots[key]; ok {
+		return fr.env[i]
 	}
 	panic(fmt.Sprintf("get: no value for %T: %v", key, key.Name()))
 }
@@ -185,10 +191,19 @@ func (ex *exec) lookupMethod(typ types.Type, meth *types.Func) value {
 		}
 		panic(unsupported("method %s on stubbed object", name))
 	}
+	type lk struct {
+		t types.Type
+		m *types.Func
+	}
+	key := lk{typ, meth}
+	if v, ok := ex.lookCache.Load(key); ok {
+		return v.(*ssa.Function)
+	}
 	f := ex.prog.LookupMethod(typ, meth.Pkg(), meth.Name())
 	if f == nil {
 		panic(fmt.Sprintf("method set for dynamic type %v does not contain %s", typ, meth))
 	}
+	ex.lookCache.Store(key, f)
 	return f
 }
 
@@ -209,35 +224,35 @@ func (ex *exec) visitInstr(fr *frame, instr ssa.Instruction) continuation {
 		// no-op
 
 	case *ssa.UnOp:
-		fr.env[instr] = ex.unop(fr, instr, fr.get(instr.X))
+		fr.env[fr.slots[instr]] = ex.unop(fr, instr, fr.get(instr.X))
 
 	case *ssa.BinOp:
-		fr.env[instr] = ex.binop(instr.Op, instr.X.Type(), fr.get(instr.X), fr.get(instr.Y))
+		fr.env[fr.slots[instr]] = ex.binop(instr.Op, instr.X.Type(), fr.get(instr.X), fr.get(instr.Y))
 
 	case *ssa.Call:
 		fn, args := ex.prepareCall(fr, &instr.Call)
-		fr.env[instr] = ex.call(fr, instr.Pos(), fn, args)
+		fr.env[fr.slots[instr]] = ex.call(fr, instr.Pos(), fn, args)
 
 	case *ssa.ChangeInterface:
-		fr.env[instr] = fr.get(instr.X)
+		fr.env[fr.slots[instr]] = fr.get(instr.X)
 
 	case *ssa.ChangeType:
-		fr.env[instr] = fr.get(instr.X) // (can't fail)
+		fr.env[fr.slots[instr]] = fr.get(instr.X) // (can't fail)
 
 	case *ssa.Convert:
-		fr.env[instr] = ex.conv(instr.Type(), instr.X.Type(), fr.get(instr.X))
+		fr.env[fr.slots[instr]] = ex.conv(instr.Type(), instr.X.Type(), fr.get(instr.X))
 
 	case *ssa.SliceToArrayPointer:
-		fr.env[instr] = sliceToArrayPointer(instr.Type(), instr.X.Type(), fr.get(instr.X))
+		fr.env[fr.slots[instr]] = sliceToArrayPointer(instr.Type(), instr.X.Type(), fr.get(instr.X))
 
 	case *ssa.MakeInterface:
-		fr.env[instr] = iface{t: instr.X.Type(), v: fr.get(instr.X)}
+		fr.env[fr.slots[instr]] = iface{t: instr.X.Type(), v: fr.get(instr.X)}
 
 	case *ssa.Extract:
-		fr.env[instr] = fr.get(instr.Tuple).(tuple)[instr.Index]
+		fr.env[fr.slots[instr]] = fr.get(instr.Tuple).(tuple)[instr.Index]
 
 	case *ssa.Slice:
-		fr.env[instr] = ex.slice(fr.get(instr.X), fr.get(instr.Low), fr.get(instr.High), fr.get(instr.Max))
+		fr.env[fr.slots[instr]] = ex.slice(fr.get(instr.X), fr.get(instr.Low), fr.get(instr.High), fr.get(instr.Max))
 
 	case *ssa.Return:
 		switch len(instr.Results) {
@@ -296,15 +311,15 @@ func (ex *exec) visitInstr(fr *frame, instr ssa.Instruction) continuation {
 
 	case *ssa.MakeChan:
 		n := int(asInt64(fr.get(instr.Size)))
-		fr.env[instr] = &gochan{cap: n, elemT: instr.Type().Underlying().(*types.Chan).Elem()}
+		fr.env[fr.slots[instr]] = &gochan{cap: n, elemT: instr.Type().Underlying().(*types.Chan).Elem()}
 
 	case *ssa.Alloc:
 		var addr *value
 		if instr.Heap {
 			addr = new(value)
-			fr.env[instr] = addr
+			fr.env[fr.slots[instr]] = addr
 		} else {
-			addr = fr.env[instr].(*value)
+			addr = fr.env[fr.slots[instr]].(*value)
 		}
 		*addr = zero(mustDeref(instr.Type()))
 
@@ -318,26 +333,26 @@ func (ex *exec) visitInstr(fr *frame, instr ssa.Instruction) continuation {
 		if c > 1<<20 {
 			panic(unsupported("makeslice: cap %d too large", c))
 		}
-		fr.env[instr] = makeSlice(tElt, int(l), int(c))
+		fr.env[fr.slots[instr]] = makeSlice(tElt, int(l), int(c))
 
 	case *ssa.MakeMap:
-		fr.env[instr] = makeMap(instr.Type().Underlying().(*types.Map).Key())
+		fr.env[fr.slots[instr]] = makeMap(instr.Type().Underlying().(*types.Map).Key())
 
 	case *ssa.Range:
-		fr.env[instr] = ex.rangeIter(fr, fr.get(instr.X), instr.X.Type())
+		fr.env[fr.slots[instr]] = ex.rangeIter(fr, fr.get(instr.X), instr.X.Type())
 
 	case *ssa.Next:
-		fr.env[instr] = fr.get(instr.Iter).(iter).next()
+		fr.env[fr.slots[instr]] = fr.get(instr.Iter).(iter).next()
 
 	case *ssa.FieldAddr:
 		p := fr.get(instr.X).(*value)
 		if p == nil {
 			panic(runtimeError("invalid memory address or nil pointer dereference"))
 		}
-		fr.env[instr] = &(*p).(structure)[instr.Field]
+		fr.env[fr.slots[instr]] = &(*p).(structure)[instr.Field]
 
 	case *ssa.Field:
-		fr.env[instr] = fr.get(instr.X).(structure)[instr.Field]
+		fr.env[fr.slots[instr]] = fr.get(instr.X).(structure)[instr.Field]
 
 	case *ssa.IndexAddr:
 		x := fr.get(instr.X)
@@ -347,7 +362,7 @@ func (ex *exec) visitInstr(fr *frame, instr ssa.Instruction) continuation {
 			if idx < 0 || idx >= int64(len(x)) {
 				panic(runtimeError(fmt.Sprintf("index out of range [%d] with length %d", idx, len(x))))
 			}
-			fr.env[instr] = &x[idx]
+			fr.env[fr.slots[instr]] = &x[idx]
 		case *value: // *array
 			if x == nil {
 				panic(runtimeError("invalid memory address or nil pointer dereference"))
@@ -357,14 +372,14 @@ func (ex *exec) visitInstr(fr *frame, instr ssa.Instruction) continuation {
 			if idx < 0 || idx >= int64(len(a)) {
 				panic(runtimeError(fmt.Sprintf("index out of range [%d] with length %d", idx, len(a))))
 			}
-			fr.env[instr] = &a[idx]
+			fr.env[fr.slots[instr]] = &a[idx]
 		case *jsonBlob:
 			b := x.bytes()
 			idx := ex.concInt(fr.get(instr.Index), len(b))
 			if idx < 0 || idx >= int64(len(b)) {
 				panic(runtimeError("index out of range"))
 			}
-			fr.env[instr] = &b[idx]
+			fr.env[fr.slots[instr]] = &b[idx]
 		default:
 			panic(fmt.Sprintf("unexpected x type in IndexAddr: %T", x))
 		}
@@ -377,13 +392,13 @@ func (ex *exec) visitInstr(fr *frame, instr ssa.Instruction) continuation {
 			if idx < 0 || idx >= int64(len(x)) {
 				panic(runtimeError("index out of range"))
 			}
-			fr.env[instr] = x[idx]
+			fr.env[fr.slots[instr]] = x[idx]
 		case string:
 			idx := ex.concInt(fr.get(instr.Index), len(x))
 			if idx < 0 || idx >= int64(len(x)) {
 				panic(runtimeError(fmt.Sprintf("index out of range [%d] with length %d", idx, len(x))))
 			}
-			fr.env[instr] = x[idx]
+			fr.env[fr.slots[instr]] = x[idx]
 		case sym:
 			panic(unsupported("indexing a symbolic string"))
 		default:
@@ -399,16 +414,16 @@ func (ex *exec) visitInstr(fr *frame, instr ssa.Instruction) continuation {
 				v = zero(instr.X.Type().Underlying().(*types.Map).Elem())
 			}
 			if instr.CommaOk {
-				fr.env[instr] = tuple{v, ok}
+				fr.env[fr.slots[instr]] = tuple{v, ok}
 			} else {
-				fr.env[instr] = v
+				fr.env[fr.slots[instr]] = v
 			}
 		case string:
 			idx := ex.concInt(fr.get(instr.Index), len(m))
 			if idx < 0 || idx >= int64(len(m)) {
 				panic(runtimeError("index out of range"))
 			}
-			fr.env[instr] = m[idx]
+			fr.env[fr.slots[instr]] = m[idx]
 		default:
 			panic(fmt.Sprintf("unexpected x type in Lookup: %T", x))
 		}
@@ -418,20 +433,20 @@ func (ex *exec) visitInstr(fr *frame, instr ssa.Instruction) continuation {
 		ex.mapInsert(m, fr.get(instr.Key), fr.get(instr.Value))
 
 	case *ssa.TypeAssert:
-		fr.env[instr] = ex.typeAssert(instr, fr.get(instr.X))
+		fr.env[fr.slots[instr]] = ex.typeAssert(instr, fr.get(instr.X))
 
 	case *ssa.MakeClosure:
 		bindings := make([]value, 0, len(instr.Bindings))
 		for _, binding := range instr.Bindings {
 			bindings = append(bindings, fr.get(binding))
 		}
-		fr.env[instr] = &closure{instr.Fn.(*ssa.Function), bindings}
+		fr.env[fr.slots[instr]] = &closure{instr.Fn.(*ssa.Function), bindings}
 
 	case *ssa.Phi:
 		panic("unreachable: phi")
 
 	case *ssa.Select:
-		fr.env[instr] = ex.selectInstr(fr, instr)
+		fr.env[fr.slots[instr]] = ex.selectInstr(fr, instr)
 
 	default:
 		panic(fmt.Sprintf("unexpected instruction: %T", instr))
@@ -510,6 +525,43 @@ func (p *Program) meta(fn *ssa.Function) *fnMeta {
 	return m
 }
 
+var slotMu sync.Mutex
+
+// numberSlots assigns an env slot to every SSA value defined in fn (params, free vars, locals, instructions).
+func (p *Program) numberSlots(fn *ssa.Function, m *fnMeta) {
+	slotMu.Lock()
+	defer slotMu.Unlock()
+	if m.slots != nil {
+		return
+	}
+	slots := map[ssa.Value]int{}
+	n := 0
+	add := func(v ssa.Value) {
+		if _, ok := slots[v]; !ok {
+			slots[v] = n
+			n++
+		}
+	}
+	for _, x := range fn.Params {
+		add(x)
+	}
+	for _, x := range fn.FreeVars {
+		add(x)
+	}
+	for _, x := range fn.Locals {
+		add(x)
+	}
+	for _, b := range fn.Blocks {
+		for _, in := range b.Instrs {
+			if v, ok := in.(ssa.Value); ok {
+				add(v)
+			}
+		}
+	}
+	m.nslots = n
+	m.slots = slots
+}
+
 func rootFn(fn *ssa.Function) *ssa.Function {
 	for fn.Parent() != nil {
 		fn = fn.Parent()
@@ -539,18 +591,22 @@ func (ex *exec) callSSA(caller *frame, callpos token.Pos, fn *ssa.Function, args
 	}
 
 	fr := &frame{ex: ex, caller: caller, fn: fn, callpos: callpos}
-	fr.env = make(map[ssa.Value]value, len(fn.Params)+8)
+	if m.slots == nil {
+		ex.numberSlots(fn, m)
+	}
+	fr.slots = m.slots
+	fr.env = make([]value, m.nslots)
 	fr.block = fn.Blocks[0]
 	fr.locals = make([]value, len(fn.Locals))
 	for i, l := range fn.Locals {
 		fr.locals[i] = zero(mustDeref(l.Type()))
-		fr.env[l] = &fr.locals[i]
+		fr.env[fr.slots[l]] = &fr.locals[i]
 	}
 	for i, p := range fn.Params {
-		fr.env[p] = args[i]
+		fr.env[fr.slots[p]] = args[i]
 	}
 	for i, fv := range fn.FreeVars {
-		fr.env[fv] = env[i]
+		fr.env[fr.slots[fv]] = env[i]
 	}
 	for fr.block != nil {
 		ex.runFrame(fr)
@@ -616,7 +672,7 @@ func executePhis(fr *frame) []ssa.Instruction {
 			fr.phitemps = append(fr.phitemps, fr.get(phi.Edges[predIndex]))
 		}
 		for i, phi := range phis {
-			fr.env[phi.(*ssa.Phi)] = fr.phitemps[i]
+			fr.env[fr.slots[phi.(*ssa.Phi)]] = fr.phitemps[i]
 		}
 	}
 	return nonPhis
